@@ -12,19 +12,36 @@ def run_check(ctx):
     st = coq.proof_stage(ctx, 'Props.C15', VO + ['Props/C13.vo'], FILES)
     finish_proof(ctx, st)
     scale = 1 if ctx.tier == 'quick' else 16
-    rng = ctx.rng; pool = Pool('ark', rng.fork('pool'), n_rand=3 * scale)
+    rng = ctx.rng; pool = Pool('ark', rng.fork('pool'), n_rand=2 * min(scale, 4))
     # (a) matrix digests per (gadget, mode) over structured inputs: must be identical for every input
     groups = {}
-    def add(gadget, mode, args): groups.setdefault((gadget, mode), []).append('r1.shape %s %s %s' % (gadget, mode, args))
+    def add(gadget, mode, args, sub=''): groups.setdefault((gadget + sub, mode), []).append('r1.shape %s %s %s' % (gadget, mode, args))
+    fvals = lambda extra: extra + [gen.rand_field(rng, Q) for _ in range(3 * scale)]
+    els = [IDENT, T2REP] + pool.all[2:5 + 2 * scale]
     for mode in ('witness', 'input'):
-        for s in [0, 8, 2, Q - 1, Q - 2, 1] + pool.encodable[:4] + [gen.rand_field(rng, Q) for _ in range(4 * scale)]: add('decode', mode, '%x' % s)
-        for r0 in [0, 1, Q - 1, 5] + [gen.rand_field(rng, Q) for _ in range(3 * scale)]: add('elligator', mode, '%x' % r0)
-        for x in [0, 1, 4, gen.ZETA] + [gen.rand_field(rng, Q) for _ in range(3 * scale)]: add('isqrt', mode, '%x' % x)
-    for c in [IDENT, T2REP] + pool.all[2:8 + 2 * scale]:
-        add('encode', 'witness', E(c)); add('new', 'witness', E(c)); add('neg', 'witness', E(c)); add('double', 'witness', E(c))
-        add('add', 'witness', '%s %s' % (E(c), E(pool.pick(rng)))); add('is_eq', 'witness', '%s %s' % (E(c), E(pool.pick(rng))))
-        add('scalar_mul', 'witness', '%s %x' % (E(c), rng.bits(64)))
-        add('new', 'input', E(c))
+        for s in [0, 8, 2, Q - 1, Q - 2, 1] + pool.encodable[:4] + fvals([]):
+            add('decode', mode, '%x' % s); add('new_fq', mode, '%x' % s)
+            for w in ('c', 'e', 'ec', 'ce', 'cec'): add('lazy.enc', mode, '%x %s' % (s, w), '/' + w)
+        for r0 in fvals([0, 1, Q - 1, 5]): add('elligator', mode, '%x' % r0)
+        for x in fvals([0, 1, 4, gen.ZETA, Q - 1, (Q - 1) // 2, (Q + 1) // 2]):
+            for gname in ('isqrt', 'is_negative', 'is_nonnegative', 'abs'): add(gname, mode, '%x' % x)
+        for c in els:
+            other = pool.pick(rng)
+            for gname in ('encode', 'new', 'new_omit', 'neg', 'double', 'double_in_place', 'enforce_prime_order', 'to_bits', 'to_bytes'): add(gname, mode, E(c))
+            add('new_affine', mode, Af(pyref.aff(c)))
+            for w in ('c', 'e', 'ce', 'ec'): add('lazy', mode, '%s %s' % (E(c), w), '/' + w)
+            for gname in ('add', 'add.ref', 'add.const', 'add_assign', 'add_assign.ref', 'add_assign.const', 'sub', 'sub.ref', 'sub.const', 'sub_assign', 'sub_assign.ref',
+                          'sub_assign.const', 'is_eq', 'enforce_equal', 'enforce_not_equal'):
+                if gname.endswith('.const'):
+                    # a constant operand is part of the circuit description (its coordinates are matrix coefficients): fixed constants, varying variable
+                    for o in (pool.base[0], T2REP): add(gname, mode, '%s %s' % (E(c), E(o)), '/' + E(o)[:16])
+                else:
+                    for o in (other, c, t2_translate(c)): add(gname, mode, '%s %s' % (E(c), E(o)))
+            for gname in ('cond_enforce_equal', 'cond_enforce_not_equal', 'select'):
+                for flag in (0, 1):
+                    for o in (other, c): add(gname, mode, '%d %s %s' % (flag, E(c), E(o)))
+            for k in (0, 1, 2**64 - 1, rng.bits(64)): add('scalar_mul', mode, '%s %x' % (E(c), k))
+            for w in ('cac', 'vdc', 'cqcnc'): add('hist', mode, '%s %s %s' % (E(c), E(other), w), '/' + w)
     # setup mode (key generation: no assignment available) must produce the same system as proving mode
     for (gadget, mode), ls in list(groups.items()):
         for l in ls[:2]: groups[(gadget, mode)].append(l.replace('r1.shape ', 'r1.shape.setup ', 1))
